@@ -186,17 +186,21 @@ def _bool(ctx):
     def thunk2(interp):
         return interp.call(g, [val])
 
-    def setup2(interp):
-        interp.types[val] = 'str'
-    outcomes, _i = extract(world, thunk2, setup=setup2)
+    for kind, grid in (('str', str_subjects(ctx.thorough)),
+                       ('bool', (True, False)), ('int', (0, 1, 2, -1)),
+                       ('NoneType', (None,)), ('float', (1.0, 0.5))):
+        def setup2(interp, kind=kind):
+            interp.types[val] = kind
+        outcomes, _i = extract(world, thunk2, setup=setup2)
 
-    def oracle2(v):
-        s = v['value']
-        if s != s.strip():
-            return None
-        return ('return', _ref_bool(s, True, None)[0] == 'return')
-    grid_compare(rep, 'R14.2', 'is_valid_boolstr', 'unpadded words',
-                 outcomes, {val: str_subjects(ctx.thorough)}, oracle2)
+        def oracle2(v):
+            s = v['value']
+            if isinstance(s, str) and s != s.strip():
+                return None
+            return ('return', _ref_bool(s, True, None)[0] == 'return')
+        grid_compare(rep, 'R14.2', 'is_valid_boolstr[%s]' % kind,
+                     'unpadded words / %s values' % kind, outcomes,
+                     {val: grid}, oracle2)
 
 
 def _ints(ctx):
@@ -226,7 +230,9 @@ def _ints(ctx):
     grid_compare(rep, 'R14.3', 'validate_integer', 'value x min x max',
                  outcomes,
                  {value: ('5', 5, '-1', -1, '0', 0, 'a', '1.5', 1.5, ' 7 ',
-                          None, '6', '4', '+5', '1_0'),
+                          None, '6', '4', '+5', '1_0', 2 ** 63,
+                          str(2 ** 64), -(2 ** 63) - 1, 10 ** 30,
+                          '-9223372036854775809', '007', True),
                   lo: (None, 0, 5, -1), hi: (None, 0, 5, -1)}, oracle)
     g = memo_check(rep, 'R14.3', world, 'strutils', 'is_int_like')
     val = T('sym', 'val')
